@@ -233,24 +233,32 @@ public:
 
     X get_first_x() const { return first; }
 
-    std::pair<long double, long double> get_intersection() const {
+    /**
+     * Returns the intersection of the two extreme lines of the segment, with the abscissa expressed as an offset from
+     * @p origin. Keeping the abscissa relative to a key of the segment avoids the cancellation that absolute coordinates
+     * suffer in long double arithmetic when the keys are large (64-bit integers close to 2^64, doubles with a full mantissa).
+     */
+    std::pair<long double, long double> get_intersection(const X &origin) const {
         auto &p0 = rectangle[0];
         auto &p1 = rectangle[1];
         auto &p2 = rectangle[2];
         auto &p3 = rectangle[3];
         auto slope1 = p2 - p0;
         auto slope2 = p3 - p1;
+        auto p0_x = SX(p0.x) - SX(origin);
 
         if (one_point() || slope1 == slope2)
-            return {p0.x, p0.y};
+            return {p0_x, p0.y};
 
         auto p0p1 = p1 - p0;
         auto a = slope1.dx * slope2.dy - slope1.dy * slope2.dx;
         auto b = (p0p1.dx * slope2.dy - p0p1.dy * slope2.dx) / static_cast<long double>(a);
-        auto i_x = p0.x + b * slope1.dx;
+        auto i_x = p0_x + b * slope1.dx;
         auto i_y = p0.y + b * slope1.dy;
         return {i_x, i_y};
     }
+
+    std::pair<long double, long double> get_intersection() const { return get_intersection(X(0)); }
 
     std::pair<long double, SY> get_floating_point_segment(const X &origin) const {
         if (one_point())
@@ -265,10 +273,10 @@ public:
             return {static_cast<long double>(slope), intercept};
         }
 
-        auto[i_x, i_y] = get_intersection();
+        auto[i_x, i_y] = get_intersection(origin);
         auto[min_slope, max_slope] = get_slope_range();
         auto slope = (min_slope + max_slope) / 2.;
-        auto intercept = i_y - (i_x - origin) * slope;
+        auto intercept = i_y - i_x * slope;
         return {slope, std::round(intercept)}; // round to nearest, as in the integral case above
     }
 
